@@ -303,6 +303,35 @@ enter_hist!(key_enter_history_v1, 1);
 enter_hist!(key_enter_history_v2, 2);
 enter_hist!(key_enter_history_v3, 3);
 
+/// Enter without any functional oracle (C03 at the boundary sizes with a non-empty
+/// history buffer, where the oracles of key_enter_v* do not fit into memory): only
+/// Kani's own checks and the representation invariant afterwards.
+fn enter_plain_body(valid: usize) {
+    let pre = any_pre_valid(valid);
+    let mut cli = build(&pre, CountSink::new());
+    let r = {
+        let mut p = RawCommand::processor(|_h: &mut CliHandle<'_, CountSink, Infallible>, _c: RawCommand<'_>| Ok(()));
+        cli.__verif_on_control::<RawCommand<'_>, _>(ControlInput::Enter, &mut p)
+    };
+    assert!(r.is_ok());
+    let p = post(&cli);
+    assert!(post_inv(&p));
+    kani::cover!(p.valid == 0);
+}
+
+macro_rules! enter_plain {
+    ($name:ident, $v:expr) => {
+        #[kani::proof]
+        #[kani::unwind(8)]
+        fn $name() {
+            enter_plain_body($v);
+        }
+    };
+}
+enter_plain!(enter_plain_v0, 0);
+enter_plain!(enter_plain_v1, 1);
+enter_plain!(enter_plain_v2, 2);
+
 enter_len!(key_enter_v0, 0);
 enter_len!(key_enter_v1, 1);
 enter_len!(key_enter_v2, 2);
